@@ -87,6 +87,18 @@ def _c08_rehomed(case, mm):
         c08.RECORDED_ONLY = False
 
 
+@predicate("C07-orphan-view-after-base-shape-assignment")
+def _c07_orphan_shape(case, mm):
+    """Same root cause as C09-cleared-tensor-reused-or-mutated (backward emptied the leaf's consumer set and its list of
+    views, so a later in-place update - here: assigning leaf.shape - cannot re-route the creator of a view the caller
+    kept; that creator now names the re-shaped leaf).  Signature: a wrongly *shaped* view gradient, in a follow-up
+    sequence where a shape assignment precedes a second backward."""
+    if mm.kind != "view_grad_shape" or case.get("mode") != "release":
+        return False
+    acts = case.get("actions", [])
+    return any(a == "shape_assign" and "backward2" in acts[i + 1:] for i, a in enumerate(acts))
+
+
 @predicate("C04-atleast-kd-constant-alias")
 def _c04_atleast(case, mm):
     if mm.kind != "base" or "h" not in mm.extra:
